@@ -38,8 +38,8 @@ type upload struct {
 	// ChecksumOnly: entries that appear in the Checksums-* fields but not in
 	// Files (the lists of a control file need not agree)
 	ChecksumOnly []upFile
-	SrcDir  string
-	DstDir  string
+	SrcDir       string
+	DstDir       string
 }
 
 const c20Src, c20Dst = "/queue/incoming/src", "/queue/dest"
